@@ -86,7 +86,9 @@ def run(chk):
                 if nsent == fail_at:
                     s2.fail = True
                 try:
-                    wsock.send(pending.pop(0))
+                    # what is sent is bytes-like: bytes, a bytearray (a reused scratch buffer), a memoryview (a slice without a copy)
+                    piece = pending.pop(0)
+                    wsock.send([bytes, bytes, bytearray, memoryview][nsent % 4](piece))
                 except OSError:
                     pass
                 nsent += 1
